@@ -557,6 +557,14 @@ impl<T: GseDecapMemory, C: CrcCalculator, MHEM: MandatoryHeaderExtensionManager>
         let label_len = label_type.len();
         let mut extensions: Vec<Extension> = vec![];
         let mut is_there_extension_header = false;
+
+        // check buffer size
+        if gse_len < label_len + PROTOCOL_LEN + FRAG_ID_LEN + TOTAL_LENGTH_LEN {
+            // len_pkt = buffer_len because the label type or the gse length is wrong so the start of the next packet is undefined
+            self.last_label = None;
+            return Err((DecapError::ErrorGseLength, buffer_len));
+        }
+
         // read frag id
         let frag_id = u8::from_be_bytes(buffer[offset..offset + FRAG_ID_LEN].try_into().unwrap());
         offset += FRAG_ID_LEN;
@@ -569,12 +577,6 @@ impl<T: GseDecapMemory, C: CrcCalculator, MHEM: MandatoryHeaderExtensionManager>
         );
         offset += TOTAL_LENGTH_LEN;
 
-        // check buffer size
-        if gse_len < label_len + PROTOCOL_LEN + FRAG_ID_LEN + TOTAL_LENGTH_LEN {
-            // len_pkt = buffer_len because the label type or the gse length is wrong so the start of the next packet is undefined
-            self.last_label = None;
-            return Err((DecapError::ErrorGseLength, buffer_len));
-        }
         // read protocol_type
         let mut protocol_type =
             u16::from_be_bytes(buffer[offset..offset + PROTOCOL_LEN].try_into().unwrap());
